@@ -164,6 +164,9 @@ impl PathSliceList {
                 } else {
                     match iter.next() {
                         Some(PathSlice::Ident(s)) => write!(w, r#"0,{}"#, gen_lit_str(s))?,
+                        Some(PathSlice::Condition(..)) => {
+                            need_comma = false;
+                        }
                         Some(PathSlice::ScopeIndex(i)) => match &scopes[*i].lvalue_path {
                             ScopeVarLvaluePath::Invalid => return Ok(false),
                             ScopeVarLvaluePath::Var { var_name, .. } => {
@@ -210,18 +213,30 @@ impl PathSliceList {
                 write!(w, r#":"#)?;
                 false_br.write_lvalue_path(w, scopes, model)?;
             } else {
+                // the member tail is appended to the path of the branch taken; the branch may itself
+                // be a conditional, and it may be `null` at run time (an item of a list without a path)
+                let mut write_branch = |w: &mut JsExprWriter<W>,
+                                        branch: &PathAnalysisState|
+                 -> Result<(), TmplError> {
+                    let legal = match branch {
+                        PathAnalysisState::InPath(psl) => psl.is_legal_lvalue_path(scopes, model),
+                        _ => false,
+                    };
+                    if legal {
+                        write!(w, r#"(p=>p&&p.concat("#)?;
+                        br(w)?;
+                        write!(w, r#"))("#)?;
+                        branch.write_lvalue_path(w, scopes, model)?;
+                        write!(w, r#")"#)?;
+                    } else {
+                        write!(w, "null")?;
+                    }
+                    Ok(())
+                };
                 write!(w, r#"{}?"#, cond)?;
-                if true_br.write_lvalue_path(w, scopes, model)?.is_some() {
-                    write!(w, r#".concat("#)?;
-                    br(w)?;
-                    write!(w, r#")"#)?;
-                }
+                write_branch(w, true_br)?;
                 write!(w, r#":"#)?;
-                if false_br.write_lvalue_path(w, scopes, model)?.is_some() {
-                    write!(w, r#".concat("#)?;
-                    br(w)?;
-                    write!(w, r#")"#)?;
-                }
+                write_branch(w, false_br)?;
             }
         } else {
             br(w)?;
